@@ -325,6 +325,66 @@ func racePrograms() map[string]func() {
 			}
 			*p = 2
 		},
+		"race/bad/mixed-atomic-plain": func() {
+			var flag int32
+			done := make(chan bool, 2)
+			go func() { atomic.StoreInt32(&flag, 1); done <- true }()
+			go func() { _ = flag; done <- true }() // plain read of a variable that is written atomically
+			<-done
+			<-done
+		},
+		"race/bad/atomic-flag-does-not-cover-later-write": func() {
+			var flag int32
+			x := 0
+			done := make(chan bool, 2)
+			go func() { atomic.StoreInt32(&flag, 1); x = 1; done <- true }() // write after the publication
+			go func() {
+				if atomic.LoadInt32(&flag) == 1 {
+					_ = x
+				}
+				done <- true
+			}()
+			<-done
+			<-done
+		},
+		"race/ok/atomic-flag-publishes": func() {
+			var flag int32
+			x := 0
+			done := make(chan bool, 2)
+			go func() { x = 1; atomic.StoreInt32(&flag, 1); done <- true }()
+			go func() {
+				if atomic.LoadInt32(&flag) == 1 {
+					_ = x
+				}
+				done <- true
+			}()
+			<-done
+			<-done
+		},
+		"race/ok/typed-atomic-publishes": func() {
+			var flag atomic.Bool
+			x := 0
+			done := make(chan bool, 2)
+			go func() { x = 1; flag.Store(true); done <- true }()
+			go func() {
+				if flag.Load() {
+					_ = x
+				}
+				done <- true
+			}()
+			<-done
+			<-done
+		},
+		"race/ok/atomic-counter-and-cas": func() {
+			var n int32
+			done := make(chan bool, 3)
+			go func() { atomic.AddInt32(&n, 1); done <- true }()
+			go func() { atomic.CompareAndSwapInt32(&n, 0, 5); done <- true }()
+			go func() { _ = atomic.LoadInt32(&n); done <- true }()
+			<-done
+			<-done
+			<-done
+		},
 		"race/ok/context-cancel": func() {
 			ctx, cancel := context.WithCancel(context.Background())
 			x := 0
